@@ -2,7 +2,9 @@ import RulioModel.Events
 
 /-! # Specification-side vocabulary for query evaluation (C03) and event processing (C04).
 Core Lean only. Nothing here is used by the executable model; the theorems in `Props/C03.lean` and
-`Props/C04.lean` relate the model's functions to these. -/
+`Props/C04.lean` relate the model's functions to these. Everything lives in the namespace `QSpec`. -/
+
+namespace QSpec
 
 /-- run `f` on each incoming binding, in order, and concatenate the results; the first error aborts -/
 def bindEach (f : Bs → Except LErr (List Bs)) (bss : List Bs) : Except LErr (List Bs) := do
@@ -165,3 +167,5 @@ def DRel (id : String) (r r' : RuleM) (d d' : String × RuleM × List Bs) : Prop
 /-- an action of the `echo` family (returns its visible variables): `{"verif_tmpl": {"t": "echo", …}, …}` -/
 def isEcho (a : J) : Prop :=
   ∃ o t, a = .obj o ∧ Obj.get? o "verif_tmpl" = some (.obj t) ∧ Obj.get? t "t" = some (.str "echo")
+
+end QSpec
